@@ -9,7 +9,7 @@ namespace Ynca.C19
 open Ynca.Srv
 
 /-- no zone of the store has a `PLAYBACK` key -/
-def NoZonePlayback (T : Tables) (st : Store) : Prop := ∀ z ∈ T.zones, hasKey st z "PLAYBACK" = false
+abbrev NoZonePlayback := @Ynca.Srv.NoZonePlayback
 
 /-- **no command crashes the handler** on such a store … -/
 theorem C19_no_crash (T : Tables) (va : VolArith) (st : Store) (h : NoZonePlayback T st) (line : String) :
